@@ -4,92 +4,82 @@ From DippyV Require Import Base.Str Base.Verdict Gen.Tables Model.Hook Model.Hoo
 Import ListNotations.
 Open Scope N_scope.
 
-(* ------------------------------------------------------------------ association lists under keep / map *)
-Lemma assoc_keep k keys kv : mem_str k keys = true -> assoc k (keep keys kv) = assoc k kv.
+(* ------------------------------------------------------------------ looking a key up in a picked list *)
+Definition pick_val (norm : str -> json -> option json) (kv : list (str * json)) (k : str) : option json :=
+  match assoc k kv with Some v => norm k v | None => None end.
+
+Lemma assoc_pick norm keys kv k :
+  assoc k (pick norm keys kv) = if mem_str k keys then pick_val norm kv k else None.
 Proof.
-  intro K. unfold keep. induction kv as [|[k' v] r IH]; [reflexivity|].
-  cbn [filter fst assoc]. destruct (mem_str k' keys) eqn:M.
-  - cbn [assoc]. destruct (str_eqb k' k); [reflexivity | exact IH].
-  - destruct (str_eqb_spec k' k) as [->|N]; [congruence | exact IH].
+  unfold pick, pick_val, mem_str. induction keys as [|k' r IH]; [reflexivity|].
+  cbn [flat_map existsb]. destruct (str_eqb_spec k k') as [<-|N].
+  - cbn [orb]. destruct (assoc k kv) as [v|]; cbn [app].
+    + destruct (norm k v) as [v'|]; cbn [app assoc]; [rewrite str_eqb_refl; reflexivity|].
+      rewrite IH. destruct (existsb (str_eqb k) r); reflexivity.
+    + rewrite IH. destruct (existsb (str_eqb k) r); reflexivity.
+  - cbn [orb]. destruct (assoc k' kv) as [v|]; cbn [app]; [|exact IH].
+    destruct (norm k' v) as [v'|]; cbn [app assoc]; [|exact IH].
+    destruct (str_eqb_spec k' k) as [E|_]; [congruence | exact IH].
 Qed.
 
-Lemma assoc_keep_none k keys kv : mem_str k keys = false -> assoc k (keep keys kv) = None.
+(* two objects that answer every look-up of the listed keys alike have the same picked list *)
+Lemma pick_ext norm keys kv kv' :
+  (forall k, mem_str k keys = true -> pick_val norm kv k = pick_val norm kv' k) -> pick norm keys kv = pick norm keys kv'.
 Proof.
-  intro K. unfold keep. induction kv as [|[k' v] r IH]; [reflexivity|].
-  cbn [filter fst]. destruct (mem_str k' keys) eqn:M; [|exact IH].
-  cbn [assoc]. destruct (str_eqb_spec k' k) as [->|N]; [congruence | exact IH].
-Qed.
-
-Lemma fst_top_entry p : fst (top_entry p) = fst p.
-Proof. unfold top_entry. destruct (str_eqb (fst p) $"tool_input"); reflexivity. Qed.
-
-Lemma assoc_top_other k kv : str_eqb k $"tool_input" = false -> assoc k (map top_entry kv) = assoc k kv.
-Proof.
-  intro N. induction kv as [|[k' v] r IH]; [reflexivity|].
-  cbn [map]. unfold top_entry at 1. cbn [fst snd].
-  destruct (str_eqb_spec k' $"tool_input") as [->|N'].
-  - cbn [assoc]. destruct (str_eqb_spec $"tool_input" k) as [<-|_]; [|exact IH].
-    rewrite str_eqb_refl in N. discriminate.
-  - cbn [assoc]. destruct (str_eqb k' k); [reflexivity | exact IH].
-Qed.
-
-Lemma assoc_top_ti kv :
-  assoc $"tool_input" (map top_entry kv) = option_map ti_view (assoc $"tool_input" kv).
-Proof.
-  induction kv as [|[k' v] r IH]; [reflexivity|].
-  cbn [map]. unfold top_entry at 1. cbn [fst snd].
-  destruct (str_eqb_spec k' $"tool_input") as [->|N'].
-  - cbn [assoc]. rewrite str_eqb_refl. reflexivity.
-  - cbn [assoc]. destruct (str_eqb_spec k' $"tool_input") as [E|_]; [contradiction | exact IH].
+  unfold pick, pick_val, mem_str. induction keys as [|k' r IH]; intro H; [reflexivity|].
+  cbn [flat_map]. f_equal.
+  - assert (E := H k'). cbn [existsb] in E. rewrite str_eqb_refl in E. specialize (E eq_refl).
+    destruct (assoc k' kv) as [v|], (assoc k' kv') as [v'|]; try rewrite E; try rewrite <- E; reflexivity.
+  - apply IH. intros k M. apply H. cbn [existsb]. rewrite M. apply orb_true_r.
 Qed.
 
 (* ------------------------------------------------------------------ the typed accesses on a view *)
 Definition is_top (k : str) : bool := mem_str k HOOK_TOP_KEYS && negb (str_eqb k $"tool_input").
 
-Lemma py_get_view inp k d : is_top k = true -> py_get (host_view inp) k d = py_get inp k d.
+Lemma top_norm_other k v : str_eqb k $"tool_input" = false -> top_norm k v = Some v.
+Proof. unfold top_norm. intros ->. reflexivity. Qed.
+
+Lemma assoc_view_top kv k : is_top k = true -> assoc k (pick top_norm HOOK_TOP_KEYS kv) = assoc k kv.
 Proof.
   unfold is_top. intro H. apply andb_prop in H as [M N]. apply negb_true_iff in N.
-  destruct inp; try reflexivity. cbn [host_view py_get].
-  rewrite (assoc_top_other _ _ N), (assoc_keep _ _ _ M). reflexivity.
+  rewrite assoc_pick, M. unfold pick_val. destruct (assoc k kv); [apply top_norm_other; exact N | reflexivity].
 Qed.
 
-Lemma py_in_view inp k : mem_str k HOOK_TOP_KEYS = true -> py_in k (host_view inp) = py_in k inp.
-Proof.
-  intro M. destruct inp; try reflexivity. cbn [host_view py_in].
-  destruct (str_eqb_spec k $"tool_input") as [->|N].
-  - rewrite assoc_top_ti, (assoc_keep _ _ _ M). destruct (assoc $"tool_input" kv); reflexivity.
-  - rewrite assoc_top_other, (assoc_keep _ _ _ M); [reflexivity|].
-    destruct (str_eqb_spec k $"tool_input"); [contradiction | reflexivity].
-Qed.
+Lemma py_get_view inp k d : is_top k = true -> py_get (host_view inp) k d = py_get inp k d.
+Proof. intro H. destruct inp; try reflexivity. cbn [host_view py_get]. rewrite (assoc_view_top _ _ H). reflexivity. Qed.
+
+Lemma py_in_view inp k : is_top k = true -> py_in k (host_view inp) = py_in k inp.
+Proof. intro H. destruct inp; try reflexivity. cbn [host_view py_in]. rewrite (assoc_view_top _ _ H). reflexivity. Qed.
 
 Lemma ti_view_empty : ti_view (JObj []) = JObj [].
-Proof. reflexivity. Qed.
+Proof. vm_compute. reflexivity. Qed.
+
+Lemma is_empty_obj_eq j : is_empty_obj j = true -> j = JObj [].
+Proof. destruct j as [| | | | |[|? ?]]; cbn; try discriminate. reflexivity. Qed.
 
 Lemma py_get_view_ti inp :
   mem_str $"tool_input" HOOK_TOP_KEYS = true ->
   py_get (host_view inp) $"tool_input" (JObj []) = (x <- py_get inp $"tool_input" (JObj []) ;; Ok (ti_view x)).
 Proof.
   intro M. destruct inp; try reflexivity. cbn [host_view py_get bind].
-  rewrite assoc_top_ti, (assoc_keep _ _ _ M). destruct (assoc $"tool_input" kv); reflexivity.
+  rewrite assoc_pick, M. unfold pick_val. destruct (assoc $"tool_input" kv) as [v|]; [|rewrite ti_view_empty; reflexivity].
+  unfold top_norm. rewrite str_eqb_refl. destruct (is_empty_obj (ti_view v)) eqn:E; [|reflexivity].
+  apply is_empty_obj_eq in E. rewrite E. reflexivity.
 Qed.
 
 Lemma py_get_ti_view v k d : mem_str k HOOK_TOOL_INPUT_KEYS = true -> py_get (ti_view v) k d = py_get v k d.
 Proof.
-  intro M. destruct v; try reflexivity. cbn [ti_view py_get]. rewrite (assoc_keep _ _ _ M). reflexivity.
+  intro M. destruct v; try reflexivity. cbn [ti_view py_get]. rewrite assoc_pick, M. unfold pick_val.
+  destruct (assoc k kv); reflexivity.
 Qed.
 
 (* what is NOT kept: any other key, at either level *)
 Lemma host_view_hides_top kv k :
   mem_str k HOOK_TOP_KEYS = false -> py_in k (host_view (JObj kv)) = Ok false.
-Proof.
-  intro M. cbn [host_view py_in].
-  assert (N : str_eqb k $"tool_input" = false).
-  { destruct (str_eqb_spec k $"tool_input") as [->|]; [|reflexivity]. vm_compute in M. discriminate. }
-  rewrite (assoc_top_other _ _ N), (assoc_keep_none _ _ _ M). reflexivity.
-Qed.
+Proof. intro M. cbn [host_view py_in]. rewrite assoc_pick, M. reflexivity. Qed.
 
 Lemma ti_view_hides tkv k : mem_str k HOOK_TOOL_INPUT_KEYS = false -> py_in k (ti_view (JObj tkv)) = Ok false.
-Proof. intro M. cbn [ti_view py_in]. rewrite (assoc_keep_none _ _ _ M). reflexivity. Qed.
+Proof. intro M. cbn [ti_view py_in]. rewrite assoc_pick, M. reflexivity. Qed.
 
 (* the closed facts about the generated tables that the model's own look-ups need: the tie *)
 Lemma top_command : mem_str $"command" HOOK_TOP_KEYS = true.          Proof. vm_compute. reflexivity. Qed.
@@ -112,13 +102,13 @@ Lemma ti_no_tool_input : mem_str $"tool_input" HOOK_TOOL_INPUT_KEYS = false. Pro
 Lemma detect_view inp : detect_mode_from_input (host_view inp) = detect_mode_from_input inp.
 Proof.
   unfold detect_mode_from_input.
-  rewrite (py_in_view inp _ top_command), (py_in_view inp _ top_tool_name), (py_get_view inp _ _ is_top_tool_name).
+  rewrite (py_in_view inp _ is_top_command), (py_in_view inp _ is_top_tool_name), (py_get_view inp _ _ is_top_tool_name).
   reflexivity.
 Qed.
 
 Lemma cursor_way_view b inp : cursor_way b (host_view inp) = cursor_way b inp.
 Proof.
-  unfold cursor_way. rewrite (py_in_view inp _ top_command), (py_in_view inp _ top_tool_name). reflexivity.
+  unfold cursor_way. rewrite (py_in_view inp _ is_top_command), (py_in_view inp _ is_top_tool_name). reflexivity.
 Qed.
 
 (* the answering mode (C12) and the event kind (C19) are read at the host level too *)
@@ -215,27 +205,39 @@ Section Oracles.
 End Oracles.
 
 (* ------------------------------------------------------------------ decoys leave the view alone *)
-Lemma keep_insert keys n p kv : mem_str (fst p) keys = false -> keep keys (insert_at n p kv) = keep keys kv.
+Lemma assoc_app_cons k k' (v : json) l1 l2 : str_eqb k' k = false -> assoc k (l1 ++ (k', v) :: l2) = assoc k (l1 ++ l2).
 Proof.
-  intro M. unfold keep, insert_at. rewrite filter_app. cbn [filter]. rewrite M, <- filter_app, firstn_skipn. reflexivity.
+  intro N. induction l1 as [|[a x] r IH]; cbn [app assoc]; [rewrite N; reflexivity|].
+  destruct (str_eqb a k); [reflexivity | exact IH].
 Qed.
+
+Lemma assoc_insert k n k' v kv : str_eqb k' k = false -> assoc k (insert_at n (k', v) kv) = assoc k kv.
+Proof. intro N. unfold insert_at. rewrite (assoc_app_cons _ _ _ _ _ N), firstn_skipn. reflexivity. Qed.
+
+Lemma mem_neq k k' keys : mem_str k keys = true -> mem_str k' keys = false -> str_eqb k' k = false.
+Proof. intros A B. destruct (str_eqb_spec k' k) as [->|]; [congruence | reflexivity]. Qed.
 
 (* (1) a member under any name the hook does not look up, at any position of the payload, holding anything -
    tool_response, session objects, look-alike spellings (permissionMode, Permission_Mode, ...), copies of the
    whole payload *)
 Lemma decoy_top_inert n k v kv :
   mem_str k HOOK_TOP_KEYS = false -> host_view (JObj (insert_at n (k, v) kv)) = host_view (JObj kv).
-Proof. intro M. cbn [host_view]. rewrite keep_insert; [reflexivity | exact M]. Qed.
-
-Lemma update_keep_map k f kv :
-  (forall v, ti_view (f v) = ti_view v) -> k = $"tool_input" ->
-  map top_entry (keep HOOK_TOP_KEYS (update k f kv)) = map top_entry (keep HOOK_TOP_KEYS kv).
 Proof.
-  intros F ->. unfold keep. induction kv as [|[k' v] r IH]; [reflexivity|].
-  cbn [update]. destruct (str_eqb_spec k' $"tool_input") as [->|N].
-  - cbn [filter fst]. destruct (mem_str $"tool_input" HOOK_TOP_KEYS); [|reflexivity].
-    cbn [map]. unfold top_entry at 1 3. cbn [fst snd]. rewrite str_eqb_refl, F. reflexivity.
-  - cbn [filter fst]. destruct (mem_str k' HOOK_TOP_KEYS); [cbn [map]; rewrite IH; reflexivity | exact IH].
+  intro M. cbn [host_view]. f_equal. apply pick_ext. intros k' K. unfold pick_val.
+  rewrite (assoc_insert _ _ _ _ _ (mem_neq _ _ _ K M)). reflexivity.
+Qed.
+
+Lemma assoc_update_same k f kv : assoc k (update k f kv) = option_map f (assoc k kv).
+Proof.
+  induction kv as [|[k' v] r IH]; [reflexivity|]. cbn [update].
+  destruct (str_eqb k' k) eqn:E; cbn [assoc]; rewrite E; [reflexivity | exact IH].
+Qed.
+Lemma assoc_update_other k k' f kv : str_eqb k' k = false -> assoc k (update k' f kv) = assoc k kv.
+Proof.
+  intro N. induction kv as [|[a v] r IH]; [reflexivity|]. cbn [update].
+  destruct (str_eqb_spec a k') as [->|N']; cbn [assoc].
+  - rewrite N. reflexivity.
+  - destruct (str_eqb a k); [reflexivity | exact IH].
 Qed.
 
 (* (2) a member inside tool_input under any name but the two the hook reads there (command, cwd): in particular
@@ -243,8 +245,30 @@ Qed.
 Lemma decoy_tool_input_inert n k v kv :
   mem_str k HOOK_TOOL_INPUT_KEYS = false -> host_view (JObj (decoy_in_tool_input n k v kv)) = host_view (JObj kv).
 Proof.
-  intro M. cbn [host_view]. unfold decoy_in_tool_input. rewrite update_keep_map; [reflexivity | | reflexivity].
-  intros [| | | |l|tkv]; try reflexivity. cbn [ti_view]. rewrite keep_insert; [reflexivity | exact M].
+  intro M. cbn [host_view]. f_equal. apply pick_ext. intros k' K. unfold pick_val, decoy_in_tool_input.
+  destruct (str_eqb_spec $"tool_input" k') as [<-|N].
+  - rewrite assoc_update_same. destruct (assoc $"tool_input" kv) as [ti|]; [|reflexivity].
+    cbn [option_map]. unfold top_norm. rewrite str_eqb_refl.
+    assert (E : ti_view match ti with JObj tkv => JObj (insert_at n (k, v) tkv) | _ => ti end = ti_view ti).
+    { destruct ti as [| | | |l|tkv]; try reflexivity. cbn [ti_view]. f_equal. apply pick_ext. intros k2 K2.
+      unfold pick_val. rewrite (assoc_insert _ _ _ _ _ (mem_neq _ _ _ K2 M)). reflexivity. }
+    rewrite E. reflexivity.
+  - rewrite assoc_update_other; [reflexivity|]. destruct (str_eqb_spec $"tool_input" k'); [contradiction | reflexivity].
+Qed.
+
+(* (2b) the order of the members, and an empty tool_input, do not matter either: the view is a normal form *)
+Lemma view_empty_tool_input n kv :
+  assoc $"tool_input" kv = None -> host_view (JObj (insert_at n ($"tool_input", JObj []) kv)) = host_view (JObj kv).
+Proof.
+  intro A. cbn [host_view]. f_equal. apply pick_ext. intros k' K. unfold pick_val, insert_at.
+  destruct (str_eqb_spec $"tool_input" k') as [<-|N].
+  - rewrite A. clear K. assert (E : assoc $"tool_input" (firstn n kv ++ ($"tool_input", JObj []) :: skipn n kv) = Some (JObj [])).
+    { rewrite <- (firstn_skipn n kv) in A. revert A. generalize (firstn n kv) (skipn n kv). intros l1 l2.
+      induction l1 as [|[a x] r IH]; cbn [app assoc]; [reflexivity|].
+      destruct (str_eqb a $"tool_input"); [discriminate | exact IH]. }
+    rewrite E. reflexivity.
+  - rewrite assoc_app_cons, firstn_skipn; [reflexivity|].
+    destruct (str_eqb_spec $"tool_input" k'); [contradiction | reflexivity].
 Qed.
 
 (* (3) anything whatsoever below a member that survives the view is already gone: the view of tool_input keeps
